@@ -733,3 +733,87 @@ def run(ctx) -> None:  # noqa: F811
                               "recursion, the potential's grid cannot be changed" if own else "", key_detail="self-assign")
     ctx.require(n >= 6, f"R-SETTERSELF examined only {n} setters")
     _inner_run_c11b(ctx)
+
+
+# ---- added: R-GRIDHISTORY (seeded change C11-r7seed3) — the state a Grid setter leaves does not depend on the value a
+# recomputed field had before the edit.  Built on C17's symbolic interpreter of the Grid setters.
+_inner_run_c11_hist = run
+
+
+def _grid_history(ctx) -> None:
+    from . import c17 as gs
+
+    repo = ctx.repo
+    cls = repo.cls(gs.MOD, "Grid")
+    it = gs.Interp(gs._Muted(ctx), cls)
+    groups: dict[tuple, list] = {}
+    setters: dict[str, object] = {}
+    for setter, pname, kind, defined, locks, v_none, init, o in gs._setter_outcomes(it, repo):
+        setters[pname] = setter
+        # a potential that has been used has a fully defined grid; the edit assigns a value
+        if v_none or not all(defined):
+            continue
+        groups.setdefault((pname, locks), []).append((init, o))
+    ctx.require(set(setters) == set(gs.PROPS), "R-GRIDHISTORY did not reach the three Grid setters")
+
+    stats = {p: {"configs": 0, "paths": 0, "compared": 0, "bad": {}} for p in setters}
+    for (pname, locks), items in groups.items():
+        s = stats[pname]
+        s["configs"] += 1
+        init = items[0][0]
+        E0, G0, S0 = init["_extent"], init["_gpts"], init["_sampling"]
+        # the grid was consistent before the edit
+        rules0 = {gs.adj("E", G0, S0): E0, gs.adj("S", E0, G0): S0, gs.adj("G", E0, S0): G0}
+        live = [o for _, o in items if o.status != "raise"]
+        s["paths"] += len(live)
+        for o in live:
+            if not o.facts:
+                continue
+            rules = gs.fact_rules(o.facts, rules0, strict=True)
+            olds = [x for a, b in o.facts for x in (a, b) if x in (E0, G0, S0)]
+            mine = set(o.facts)
+            refs = [r for r in live if r is not o and set(r.facts) < mine
+                    and it.satisfiable(list(o.epconds) + list(r.epconds))]
+            if not refs:
+                continue  # the other arm raises: nothing to compare with (e.g. a locked extent re-assigned)
+            s["compared"] += 1
+            got = tuple(gs.simplify(o.fields[f], rules) for f in gs.FIELDS)
+            exps = [tuple(gs.simplify(r.fields[f], rules) for f in gs.FIELDS) for r in refs]
+            if got in exps:
+                continue
+            what = "+".join(sorted({gs.KIND_NAME[gs.kind_of(x)] for x in olds})) or "value"
+            e = s["bad"].setdefault(what, {"n": 0})
+            e["n"] += 1
+            e.setdefault("text", (
+                f"a test finds {' and '.join(gs.show(a) + ' == ' + gs.show(b) for a, b in o.facts)} (a quantity "
+                f"compared with the {what} the grid had BEFORE this edit) and the arm taken then leaves "
+                f"(extent, gpts, sampling) = ({', '.join(gs.show(x) for x in got)}), whereas the other arm — the one a "
+                f"grid with any other previous {what} takes for the same assigned value — leaves "
+                f"({', '.join(gs.show(x) for x in exps[0])}) under the same equality: the grid after `grid.{pname} = "
+                f"new` depends on its history, so a potential re-gridded to `new` is built on a different grid than a "
+                f"fresh one given `new`; stores on the path: {'; '.join(o.trace) or 'none'} "
+                f"[first configuration: {gs._cfg_text((True, True, True), locks, False, pname)}"))
+    for pname, s in sorted(stats.items()):
+        f = setters[pname]
+        for what, e in sorted(s["bad"].items()):
+            ctx.violation("R-GRIDHISTORY", f"{f.qualname}:setter", f.where, e["text"] + f"; {e['n']} path(s)]",
+                          key_detail=f"previous-{what}")
+        if not s["bad"]:
+            ctx.ok("R-GRIDHISTORY", f"{f.qualname}:setter", f.where,
+                   f"{s['configs']} lock configurations of a fully defined grid, {s['paths']} non-raising paths, "
+                   f"{s['compared']} arm(s) selected by an equality with a previous value: each leaves the state the "
+                   "other arm leaves under that equality")
+
+
+def run(ctx) -> None:  # noqa: F811
+    ctx.rule("R-GRIDHISTORY", "symbolic interpretation of the Grid extent/gpts/sampling setters (the interpreter of "
+             "C17) on every lock configuration of a fully defined, consistent grid: the state (extent, gpts, sampling) "
+             "an assignment leaves is a function of the assigned value and of the fields the edit keeps.  Whenever a "
+             "path is selected by an equality test between grid quantities (a re-derived field compared with a "
+             "snapshot of it taken before the edit, the new value compared with the current one), the state it leaves "
+             "must be the state the other arm leaves, rewritten with that equality and the consistency of the grid "
+             "before the edit (extent == gpts * sampling); a no-op shortcut satisfies this, a shortcut that stores a "
+             "different term does not.  Necessary: Potential re-grids through these setters (lock_extent grid), and a "
+             "reused potential must be built on the grid a fresh potential with the same parameters gets")
+    _grid_history(ctx)
+    _inner_run_c11_hist(ctx)
